@@ -326,16 +326,20 @@ class Run:
             ctx.violation("follower-text-push-blocks-or-shifts", "six PUSHes through the follower", {"run": foll6})
         return res
 
-    def cut(self, cl, flags):
+    def cut(self, cl, flags, nflight=6, cutafter=None):
         ctx = self.ctx
-        r = self.scenarios.cut_scenario(cl, self.prefix("C"))
+        r = self.scenarios.cut_scenario(cl, self.prefix("C"), nflight=nflight, cutafter=cutafter)
         lost = [j for j, a in enumerate(r["answered"]) if not a]
+        self.cov.setdefault("link_cuts", []).append({"in_flight": r["nflight"], "cutafter": cutafter, "answered": sum(r["answered"])})
         self.cov["link_cut"] = {"in_flight": r["nflight"], "answered": sum(r["answered"]), "results": r["results"], "leader_executed_unanswered": r["leader_holds_for_unanswered"],
                                 "text_waiter_released": r["text_inflight_reply"] is not None, "connection_usable_afterwards": r["after_bin"] == 0}
         self.cov["evaluations"] += r["nflight"] + 3
         model_loses = flags["rollback_latest_only"]
-        ctx.obligation("witness replay: Relay.binary_rollback_loses_replies on the real follower (model: %s, observed: %d of %d in-flight commands answered)"
-                       % ("only the latest is answered" if model_loses else "all answered", sum(r["answered"]), r["nflight"]), bool(lost) == model_loses)
+        if cutafter is not None and not lost:
+            ctx.notes.append("cutafter %d of %d: the cut hit another link, every binary command was answered" % (cutafter, nflight))
+        else:
+            ctx.obligation("witness replay: Relay.binary_rollback_loses_replies on the real follower (model: %s, observed: %d of %d in-flight commands answered)"
+                           % ("only the latest is answered" if model_loses else "all answered", sum(r["answered"]), r["nflight"]), bool(lost) == model_loses)
         if lost:
             ctx.violation("link-drop-unanswered-inflight:binary",
                           "the leader link dropped with %d binary commands in flight: %d never got any answer (the leader executed %d of them)"
@@ -345,7 +349,8 @@ class Run:
                           {"scenario": "cut", "run": r})
         if r["after_bin"] != 0:
             ctx.violation("link-drop-connection-unusable", "after the link cut the same client connection cannot reach the leader any more", {"run": r})
-        self.cut_tie(cl, r)
+        if cutafter is None:
+            self.cut_tie(cl, r)
         return r
 
     def cut_tie(self, cl, r):
@@ -498,7 +503,7 @@ def run(ctx):
         scripts = [rp["script"]] if "script" in rp else []
         n_gen = 0
     else:
-        n_gen = 160 if thorough else 30
+        n_gen = 400 if thorough else 30
         scripts = corpus_scripts() + gen.generate(ctx.rng, n_gen)
     cl = R.cluster.Cluster(bins, 0, "main")
     t0 = time.time()
@@ -514,8 +519,9 @@ def run(ctx):
             R.model_tie(cl)
             R.cut(cl, flags)
             if thorough:
-                for _ in range(3):
-                    R.cut(cl, flags)
+                for _ in range(4):
+                    n = ctx.rng.choice([3, 5, 8, 12])
+                    R.cut(cl, flags, nflight=n, cutafter=ctx.rng.choice([None, 1, n - 2]))
             R.roles(cl)
         for name in ("leader", "follower"):
             if not cl.alive(name) and name in cl.procs:
